@@ -453,6 +453,19 @@ def spatial_histories(ctx, model_ok, tmp):
                 batch = [(k0, rng.choice([final[el][k0], None] + list(polys)))]
             spelled = ",".join(f"{k}:{r if r else '-'}" for k, r in batch)
             recs = [record(el, k, r) for k, r in batch]
+            # now and then the call fails part-way: a one-shot fault on the first statement that writes the element's
+            # overlap table.  The call must then have changed nothing — neither records nor overlap rows.
+            fault = {"armed": (not corpus) and kind in ("ins", "skip", "repl") and rng.random() < 0.15, "fired": False}
+            if fault["armed"]:
+                import sqlalchemy
+
+                def _fault_hook(conn, cursor, statement, parameters, context, executemany, _f=fault):
+                    st_ = statement.lstrip().upper()
+                    if _f["armed"] and "_SKYPIX_OVERLAP" in st_ and (st_.startswith("INSERT") or st_.startswith("DELETE")):
+                        _f["armed"], _f["fired"] = False, True
+                        raise RuntimeError("verif: injected fault while writing overlap rows")
+
+                sqlalchemy.event.listen(b._registry._db._engine, "before_cursor_execute", _fault_hook)
             try:
                 if kind == "ins":
                     reg.insertDimensionData(name, *recs)
@@ -469,16 +482,29 @@ def spatial_histories(ctx, model_ok, tmp):
             except Exception as e:
                 out = "conflict" if kind.startswith("sync") else "refused"
                 ctx.count(f"spatial-refused:{type(e).__name__}")
-            if kind.startswith("sync"):
+            finally:
+                if fault["armed"] or fault["fired"]:
+                    fault["armed"] = False
+                    sqlalchemy.event.remove(b._registry._db._engine, "before_cursor_execute", _fault_hook)
+            if fault["fired"]:
+                # the model is not told about the call: the probes below compare with its unchanged state
+                ctx.count(f"spatial-op:{kind}:fault->{out}")
+                ops.append(f"{kind} {name} {spelled} with a fault on the overlap write -> {out}")
+                if out == "ok":
+                    viol(f"after {ops[-3:]}: the call reported success although writing its overlap rows failed", f"sp-fault-ok:{ops}",
+                         {"kind": "spatial-history", "ops": ops})
+                    break
+            elif kind.startswith("sync"):
                 req.append(f"sp sync {el} {spelled} {kind[-1]}")
             else:
                 req.append(f"sp {kind} {el} {spelled}")
-            impl.append(out)
-            ops.append(f"{kind} {name} {spelled} -> {out}")
+            if not fault["fired"]:
+                impl.append(out)
+                ops.append(f"{kind} {name} {spelled} -> {out}")
             ctx.count(f"spatial-op:{kind}:{out}")
             ctx.evaluations += 1
             # the harness's own bookkeeping of the final records (model-free)
-            if out in ("ok", "inserted", "updated"):
+            if out in ("ok", "inserted", "updated") and not fault["fired"]:
                 for k, r in batch:
                     if kind == "skip" and k in final[el]:
                         if final[el][k] != r:
